@@ -3,6 +3,7 @@
 package c13
 
 import (
+	"context"
 	"fmt"
 	"regexp"
 	"runtime"
@@ -231,6 +232,10 @@ type ChanCase struct {
 	Select    bool `json:"consumers_use_select"`
 	Procs     int  `json:"gomaxprocs"`
 	LuaClose  bool `json:"closed_from_lua"`
+	// the states of the producers / consumers have a (never cancelled) context attached: the channel operations
+	// then take their context-watching paths
+	ProducerCtx bool `json:"producers_have_context"`
+	ConsumerCtx bool `json:"consumers_have_context"`
 }
 
 const producerSrc = `
@@ -286,6 +291,8 @@ var chkChan = vf.Register("channel_delivery", func(k *vf.C, c *ChanCase) error {
 	}
 	got := make([][]rec, c.Consumers)
 	errs := make(chan string, c.Producers+c.Consumers+2)
+	live, cancelLive := context.WithCancel(context.Background())
+	defer cancelLive()
 	var pwg, cwg sync.WaitGroup
 	for p := 1; p <= c.Producers; p++ {
 		pwg.Add(1)
@@ -293,6 +300,9 @@ var chkChan = vf.Register("channel_delivery", func(k *vf.C, c *ChanCase) error {
 			defer pwg.Done()
 			L := lua.NewState()
 			defer L.Close()
+			if c.ProducerCtx {
+				L.SetContext(live)
+			}
 			L.SetGlobal("ch", lua.LChannel(ch))
 			L.SetGlobal("done", lua.LChannel(done))
 			fn, err := L.LoadString(producerSrc)
@@ -314,6 +324,9 @@ var chkChan = vf.Register("channel_delivery", func(k *vf.C, c *ChanCase) error {
 			defer cwg.Done()
 			L := lua.NewState()
 			defer L.Close()
+			if c.ConsumerCtx {
+				L.SetContext(live)
+			}
 			L.SetGlobal("ch", lua.LChannel(ch))
 			L.SetGlobal("ch2", lua.LChannel(ch2))
 			L.SetGlobal("yield", L.NewFunction(func(L *lua.LState) int { runtime.Gosched(); return 0 }))
@@ -432,6 +445,12 @@ var chkChan = vf.Register("channel_delivery", func(k *vf.C, c *ChanCase) error {
 	if c.Select {
 		k.Class("select_consumers")
 	}
+	if c.ProducerCtx {
+		k.Class("producers_with_context")
+	}
+	if c.ConsumerCtx {
+		k.Class("consumers_with_context")
+	}
 	if c.Producers >= 2 && c.Consumers >= 2 && want >= 20 {
 		k.Nontrivial(vf.Hash(fmt.Sprint(*c)))
 		k.Sample("channels", 2, c)
@@ -442,13 +461,15 @@ var chkChan = vf.Register("channel_delivery", func(k *vf.C, c *ChanCase) error {
 func TestChannelDelivery(t *testing.T) {
 	vf.Rapid(t, func(rt *rapid.T) {
 		c := &ChanCase{
-			Producers: rapid.IntRange(1, 4).Draw(rt, "producers"),
-			Consumers: rapid.IntRange(1, 4).Draw(rt, "consumers"),
-			Buffer:    rapid.SampledFrom([]int{0, 1, 8}).Draw(rt, "buffer"),
-			PerSender: rapid.IntRange(1, 40).Draw(rt, "n"),
-			Select:    rapid.Bool().Draw(rt, "select"),
-			Procs:     rapid.SampledFrom([]int{1, 2, 4, 16}).Draw(rt, "procs"),
-			LuaClose:  rapid.Bool().Draw(rt, "luaclose"),
+			Producers:   rapid.IntRange(1, 4).Draw(rt, "producers"),
+			Consumers:   rapid.IntRange(1, 4).Draw(rt, "consumers"),
+			Buffer:      rapid.SampledFrom([]int{0, 1, 8}).Draw(rt, "buffer"),
+			PerSender:   rapid.IntRange(1, 40).Draw(rt, "n"),
+			Select:      rapid.Bool().Draw(rt, "select"),
+			Procs:       rapid.SampledFrom([]int{1, 2, 4, 16}).Draw(rt, "procs"),
+			LuaClose:    rapid.Bool().Draw(rt, "luaclose"),
+			ProducerCtx: rapid.Bool().Draw(rt, "producerctx"),
+			ConsumerCtx: rapid.Bool().Draw(rt, "consumerctx"),
 		}
 		chkChan.Run(rt, c)
 	})
@@ -471,7 +492,7 @@ var payloads = map[string]struct {
 	"function": {"function() end", true}, "host_function": {"print", true}, "userdata": {"newud()", true},
 	"thread": {"coroutine.create(function() end)", true}, "table_with_metatable": {"setmetatable({}, {})", true},
 	"table_with_protected_metatable": {"setmetatable({}, {__metatable = false})", true},
-	"channel": {"channel.make(1)", false},
+	"channel":                        {"channel.make(1)", false},
 }
 
 var chkRefuse = vf.Register("channel_refusal", func(k *vf.C, c *RefuseCase) error {
